@@ -174,7 +174,10 @@ pub fn check_symbols(obj: &ObjectFile, ro: &refasm::RefObj, prog: &AProg, r: &Re
     let text = &r.text;
     // ---- C01/C23: label listing
     let mut listed: BTreeMap<String, (u16, bool)> = BTreeMap::new();
-    for (n, a, e) in sym.label_iter() { if listed.insert(upper(n), (a, e)).is_some() { fail(out, "C23", "label-listed-twice", format!("{n} listed twice")); } }
+    // (sorted first: the listing comes out of a hash map, and every reported detail must be reproducible)
+    let mut listing: Vec<(String, u16, bool)> = sym.label_iter().map(|(n, a, e)| (n.to_string(), a, e)).collect();
+    listing.sort();
+    for (n, a, e) in &listing { if listed.insert(upper(n), (*a, *e)).is_some() { fail(out, "C23", "label-listed-twice", format!("the listing contains two spellings of {} (e.g. {n:?})", upper(n))); } }
     let exp_names: BTreeSet<&String> = ro.labels.keys().collect();
     let got_names: BTreeSet<&String> = listed.keys().collect();
     if exp_names != got_names { fail(out, "C23", "label-set", format!("label_iter lists {got_names:?}, program has {exp_names:?}\n{text}")); fail(out, "C01", "label-set", format!("label_iter lists {got_names:?}, program has {exp_names:?}\n{text}")); }
@@ -204,19 +207,19 @@ pub fn check_symbols(obj: &ObjectFile, ro: &refasm::RefObj, prog: &AProg, r: &Re
         }
         match sym.rev_lookup_label(*a) {
             Some(g) if ro.labels.get(&upper(g)).map(|x| x.0) == Some(*a) => {}
-            other => fail(out, "C23", "rev_lookup_label", format!("rev_lookup_label(x{a:04X}) = {other:?}, not a label recorded at that address\n{text}")),
+            other => fail(out, "C23", "rev_lookup_label", format!("rev_lookup_label(x{a:04X}) returned {}, not a label recorded at that address\n{text}", if other.is_some() { "a name" } else { "None" })),
         }
     }
     // absent names
     let mut absent: Vec<String> = vec!["ZZ_ABSENT".into(), "".into()];
-    for n in ro.labels.keys().take(3) { absent.push(format!("{n}Q")); if n.len() > 1 { absent.push(n[..n.len() - 1].to_string()); } }
+    for n in ro.labels.keys().take(3) { absent.push(format!("{n}Q")); if n.chars().count() > 1 { let mut t = n.clone(); t.pop(); absent.push(t); } }
     for n in absent {
         if ro.labels.contains_key(&upper(&n)) { continue; }
         if sym.lookup_label(&n).is_some() || sym.get_label_source(&n).is_some() { fail(out, "C23", "absent-name", format!("name {n:?} is not in the program but a lookup succeeds")); }
     }
     let used: BTreeSet<u16> = ro.labels.values().map(|x| x.0).collect();
     for a in [0x0000u16, 0x2FFF, 0x3000, 0x3001, 0xFDFF, 0xFFFF] {
-        if !used.contains(&a) { if let Some(g) = sym.rev_lookup_label(a) { fail(out, "C23", "rev-absent", format!("rev_lookup_label(x{a:04X}) = {g:?} but no label is at that address")); } }
+        if !used.contains(&a) { if sym.rev_lookup_label(a).is_some() { fail(out, "C23", "rev-absent", format!("rev_lookup_label(x{a:04X}) returns a name but no label is at that address")); } }
     }
     // ---- C24: line <-> address
     let mut exp: BTreeMap<usize, u16> = BTreeMap::new();
